@@ -148,6 +148,9 @@ def pOp : P Op := fun ts => match ts with
   | "scomp" :: r => (do let i ← pNat; pure (Op.composition i) : P Op) r
   | "spget" :: r => (do let i ← pNat; let k ← tok; let ix ← pOpt pIndex; pure (Op.sysPropGet i k ix) : P Op) r
   | "spgeta" :: r => (do let i ← pNat; let ix ← pIndex; pure (Op.sysPropGetAtoms i ix) : P Op) r
+  | "spgets" :: r => (do let i ← pNat; let k ← tok; let ix ← pOpt pIndex; pure (Op.sysPropGetScaled i k ix) : P Op) r
+  | "spgetas" :: r => (do let i ← pNat; let ix ← pOpt pIndex; pure (Op.sysPropGetAtomsScaled i ix) : P Op) r
+  | "sdcopy" :: r => (do let i ← pNat; pure (Op.sysDeepcopy i) : P Op) r
   | "spset" :: r => (do
       let i ← pNat; let k ← tok; let ix ← pOpt pIndex; let sc ← pBool; let v ← pVal
       pure (Op.sysPropSet i k ix v sc) : P Op) r
